@@ -54,7 +54,8 @@ REQUIRED_THEOREMS = ["no_handler_before_hsOk", "no_cleartext_on_dtls_session", "
                      "server_key_history_independent", "accepts_ok_key",
                      "queued_con_one_nack_on_failure", "ledger_before_established",
                      "queued_first_flush_in_order_once_on_success", "icmp_notification_is_extra",
-                     "newClient_start", "endpoint_start", "newClientTls_start", "accept_start"]
+                     "newClient_start", "endpoint_start", "newClientTls_start", "accept_start",
+                     "queued_delivered_in_order_once_on_success", "first_transmissions_in_order"]
 RULE = ("one line = one whole scenario with the REAL GnuTLS on both sides in one process (virtual clock for libcoap and GnuTLS, "
         "scripted wire): a server context with a DTLS endpoint configured by coap_context_set_psk2 (default key, identity table, "
         "hint, SNI table) and a client session from coap_new_client_session_psk2 (identity, key, hint callback, SNI); credential "
